@@ -38,7 +38,9 @@ def regenerate(run):
     C.write_if_changed(os.path.join(C.COQ, "Gen", "CompareC.v"), ctext)
     return []
 
-RULE = ("operand pairs drawn from a pool of interfaces / class specifications / None / foreign objects "
+RULE = ("operand pairs drawn from a pool of interfaces / class specifications (of plain classes and, kind 'implold', "
+        "materialised from an old-style __implemented__ in the class body; their Coq operands carry the STATED key "
+        "'<module>.<class>' in zope.interface.declarations, not the observed one) / None / foreign objects "
         "with names and modules that are empty, equal, prefix-related, non-ASCII and non-BMP; a case is "
         "non-trivial when at least one operand is an interface or class specification; distinct = "
         "distinct (kinds, same-object?, name-order, module-order) signature")
